@@ -77,12 +77,17 @@ def py_history(max_dt, t0, history, has_control=True):
     return {"outs": outs, "held_time": fbits(mf.current_time), "held": flatten(mf.state)}
 
 
-def build_cpp(ctx) -> str | None:
-    exe = os.path.join(ctx.scratch, "managed_trace")
+def build_cpp(ctx, maxdt_exprs=None, pre_includes=(), include_dirs=(), exe_name="managed_trace") -> str | None:
+    """maxdt_exprs: C++ constant expressions to use instead of the literals of MAXDTS (e.g. the `Tag::max_dt_sec` of generated
+    filters whose headers are given in pre_includes, found through include_dirs)"""
+    exe = os.path.join(ctx.scratch, exe_name)
     src = os.path.join(core.VERIF, "harness", "cpp", "managed_trace.cpp")
+    extra = [f"-I{d}" for d in include_dirs]
+    for h in pre_includes:
+        extra += ["-include", h]
     r = subprocess.run(
-        ["g++", "-std=c++20", "-O0", "-ffp-contract=off", f"-I{core.REPO}/cpp/runtime/include",
-         "-DMAXDT_LIST=" + ",".join(repr(m) for m in MAXDTS), src, "-o", exe],
+        ["g++", "-std=c++20", "-O0", "-ffp-contract=off", f"-I{core.REPO}/cpp/runtime/include"] + extra +
+        ["-DMAXDT_LIST=" + ",".join(maxdt_exprs if maxdt_exprs is not None else [repr(m) for m in MAXDTS]), src, "-o", exe],
         capture_output=True, text=True, timeout=600)
     if r.returncode != 0:
         ctx.extra["cpp_build_error"] = r.stderr[-3000:]
